@@ -82,7 +82,7 @@ class Tetrahedron(BaseMagnet):
     """
 
     _field_func = staticmethod(BHJM_magnet_tetrahedron)
-    _field_func_kwargs_ndim = {"polarization": 1, "vertices": 3}
+    _field_func_kwargs_ndim = {"polarization": 2, "vertices": 3}
     get_trace = make_Tetrahedron
 
     def __init__(
